@@ -1020,8 +1020,10 @@ def _run_longindex(case, ctx, pym):
     allidx = np.arange(n)
     a, b = sorted(int(v) for v in rng.integers(10, n - 10, 2))
     b = max(b, a + 5)
-    sets = [allidx, np.concatenate([allidx[:a], allidx[b:]]), np.concatenate([allidx[:a + 2], allidx[b + 1:]])]
-    order = rng.permutation(3)
+    sets = [allidx, np.concatenate([allidx[:a], allidx[b:]]), np.concatenate([allidx[:a + 2], allidx[b + 1:]]),
+            allidx[::-1].copy(),                       # a contiguous descending range that ends at index 0 (reversed dof order)
+            np.arange(b, a, -1), np.arange(a, b)]      # contiguous ranges away from the ends, descending and ascending
+    order = rng.permutation(len(sets))
     want_sens = np.zeros(n)
     want_state = x0.copy()
     for o in order:
@@ -1044,6 +1046,23 @@ def _run_longindex(case, ctx, pym):
     want_sens[sets[1]] = 0
     sv = s.sensitivity
     require(sv is not None and bool(np.allclose(np.asarray(sv), want_sens, rtol=0, atol=1e-12)), "long-index/slice-reset-clears-other-entries", n=n)
+    # a module wired to slices of the signal and reset on its own: only the entries of its slices are cleared
+    s.sensitivity = None
+    full = rng.standard_normal(n)
+    s.add_sensitivity(full.copy())
+    i0, i1 = sorted(int(v) for v in rng.integers(0, n, 2))
+    i1 = max(i1, i0 + 2)
+    ix = rng.permutation(n)[:5]
+    m = pym.EinSum([s[i0:i1], s[ix]], pym.Signal("y"), expression="i,j->")
+    m.response()
+    m.reset()
+    want = full.copy()
+    want[i0:i1] = 0
+    want[ix] = 0
+    sv = s.sensitivity
+    require(sv is not None and bool(np.array_equal(np.asarray(sv), want)), "module-reset/clears-entries-outside-the-slices-it-is-wired-to", n=n,
+            slices=[[i0, i1], ix.tolist()], left=None if sv is None else int(np.count_nonzero(np.asarray(sv))), expected=int(np.count_nonzero(want)))
+    ctx.count("module_resets_over_slices")
     return {"key": f"longindex/{case['k']}", "nontrivial": True, "obs": {"n": n, "gap": [a, b]}}
 
 
